@@ -232,6 +232,16 @@ pub fn search() -> Option<String> {
             }
         }
     }
+    // window sizes at the far end of their type (u8): "any window and n-gram sizes"
+    for corpus in [0usize, 1, 5, 8] {
+        for (cw, cn, tw, tn) in [(127u8, 2u8, 1u8, 1u8), (128, 2, 1, 1), (1, 1, 200, 2), (255, 3, 255, 3), (200, 1, 128, 1)] {
+            for dict in [0u8, 3] {
+                if let Some(d) = check(cw, cn, tw, tn, dict, corpus, (corpus + dict as usize) % 2) {
+                    return Some(d);
+                }
+            }
+        }
+    }
     for corpus in 0..CORPORA.len() {
         for (cw, cn, tw, tn) in [(1u8, 1u8, 1u8, 1u8), (2, 2, 2, 2)] {
             if let Some(d) = check(cw, cn, tw, tn, 2, corpus, 0) {
